@@ -322,4 +322,58 @@ PROPS = {
         "quick": box(16, 500, 25, floor_evaluations=200, floor_shapes=20),
         "thorough": box(16, 12000, 420, floor_evaluations=2000, floor_shapes=50),
     },
+    "C13": {
+        "level": "exploration",
+        "technique": "runtime monitoring: routing model vs. recording writers, a FileLogWriter with "
+                     "max_level (file content), a SyslogWriter on a unix datagram socket bound by "
+                     "the harness, the error-channel file, and captured stderr/stdout of child "
+                     "processes for duplication incl. adapt_duplication_to_* mid-history",
+        "level_text": "Held on the executions explored: for seeded brace lists (sets over registered "
+                      "names A,B,C,F,S, unknown X,Y and _Default, any order/length) x levels x "
+                      "specifications x ceilings: every named registered writer gets the record "
+                      "exactly once, unnamed ones nothing, the default channel iff _Default is "
+                      "listed and the spec enables the module path; FileLogWriter/SyslogWriter emit "
+                      "nothing above their ceiling; unknown names are reported on the error channel "
+                      "and nothing else is; child runs: stderr/stdout duplicates and the file hold "
+                      "exactly the records the thresholds in force admit.",
+        "level_note": "Trusted: routing model, C02 matcher, unique-id messages. Lists naming a "
+                      "writer twice and empty lists are not generated (undefined by the statement; "
+                      "C10 covers them for panics). Custom writers' own ceilings are not judged.",
+        "rule": "5 of 6 cases are in-process routing histories (5-40 records), 1 of 6 a duplication "
+                "child; non-trivial iff at least one brace-target record was routed (child: at "
+                "least one record reached the file); distinct = (kind, file ceiling, syslog "
+                "on/ceiling/header) resp. (dup thresholds, spec level)",
+        "assumptions": COMMON_ASSUMPTIONS + ["syslog: unix datagram sockets only (no TCP/UDP, no "
+                                             "real daemon)"],
+        "quick": box(16, 300, 25, floor_evaluations=200, floor_shapes=20),
+        "thorough": box(16, 8000, 420, floor_evaluations=2000, floor_shapes=40),
+    },
+    "C20": {
+        "level": "exploration",
+        "technique": "runtime monitoring: independent layouts of the provided format functions "
+                     "(exact timestamp text from the virtual clock), serde_json decode of the JSON "
+                     "format, byte-exact framing parse of files / captured stderr+stdout, auto-tick "
+                     "clock for the single-timestamp rule, real recursion through Display",
+        "level_text": "Held on the executions explored: every record in every output is exactly "
+                      "format output + one configured line ending (files: LF/CRLF; std streams: one "
+                      "ending); default/opt/detailed/with_thread (+ coloured variants after "
+                      "stripping ANSI, + key-values) render level, location and message verbatim for "
+                      "hostile texts; the JSON line is valid single-line JSON whose fields decode to "
+                      "the same values; file, writer, additional file, stderr and stdout duplicates "
+                      "of one record carry the same timestamp, inside the log call (auto-tick); "
+                      "recursive logging from a Display implementation yields the inner lines first, "
+                      "each correctly framed (in-process and via the global logger in children).",
+        "level_note": "Trusted: the layouts written from the docs of each format function, "
+                      "serde_json, the clock hook in DeferredNow. Coloured formats: messages contain "
+                      "no ESC so stripping is lossless; which parts are coloured is not judged.",
+        "rule": "7 of 8 cases are in-process (1-20 records x up to 3 outputs), 1 of 8 a child "
+                "(stderr/stdout primary in Direct/Buffered/Async/SupportCapture mode, file with "
+                "duplicates, real macros in Display); non-trivial iff at least one record was "
+                "judged; distinct = (driver level, formats per output, line ending, write mode, "
+                "clock kind, recursion) resp. (primary kind, std mode, recursion, formats)",
+        "assumptions": COMMON_ASSUMPTIONS + ["time zones: UTC, Asia/Kolkata, America/Caracas, "
+                                             "Asia/Kathmandu per shard"],
+        "quick": box(16, 400, 25, floor_evaluations=200, floor_shapes=20),
+        "thorough": box(16, 12000, 420, floor_evaluations=2000, floor_shapes=50),
+    },
 }
